@@ -213,11 +213,16 @@ Proof.
     apply finish_inv; [exact HT|exact G].
 Qed.
 
+(* forgetting refilled slots touches sent / more / okm only: the invariant speaks of holds, soft, refm, ho, acct, f_tout *)
+Lemma forget_inv idx r : Inv r -> Inv (forget idx r).
+Proof. intros H; exact H. Qed.
+
 Theorem step_ev_inv c s e : TInv s -> TInv (fst (step_ev c s e)).
 Proof.
   intros HT. destruct e as [id argv|svs rs t]; cbn [step_ev].
   - apply step_inv; exact HT.
-  - exact HT.
+  - unfold TInv in *. cbn [fst reqs]. apply Forall_forall. intros r' Hr. apply in_map_iff in Hr as (r & <- & Hr).
+    apply forget_inv. exact (proj1 (Forall_forall _ _) HT r Hr).
 Qed.
 
 Theorem run_inv c s0 evs : TInv s0 -> TInv (fold_left (fun s e => fst (step_ev c s e)) evs s0).
